@@ -453,8 +453,11 @@ class MTVRP(Spec):
 
     def build(self, cfg):
         from rl4co.envs import MTVRPEnv
-        return MTVRPEnv(generator_params=dict(num_loc=cfg["n"], variant_preset=cfg["variant"],
-                                              speed=cfg.get("speed", 1.0)), check_solution=False)
+        sp = cfg.get("speed", 1.0)
+        # precondition of the generator's time-window construction (not asserted by it): a customer must be able to
+        # be served and the vehicle be back within max_time, i.e. max_time has to grow with 1/speed for slow vehicles
+        return MTVRPEnv(generator_params=dict(num_loc=cfg["n"], variant_preset=cfg["variant"], speed=sp,
+                                              max_time=4.6 / min(sp, 1.0)), check_solution=False)
 
     def lattice(self, cfg, B, exact=True):
         """Hand-built instances in the documented reset format; features follow the preset letters."""
@@ -744,7 +747,9 @@ class FLP(Spec):
         return st.integers(2, 12) if tier == "quick" else st.integers(2, 30)
 
     def cfg(self, tier):
-        return self.sizes(tier).flatmap(lambda n: st.integers(1, n).map(lambda k: {"n": n, "k": k}))
+        # scale > 1: hand-supplied coordinates outside the generator's default unit box (documented format has no box)
+        return self.sizes(tier).flatmap(lambda n: st.tuples(st.integers(1, n), st.sampled_from([1.0, 1.0, 3.0])).map(
+            lambda t: {"n": n, "k": t[0], "scale": t[1]}))
 
     def build(self, cfg):
         from rl4co.envs import FLPEnv
@@ -755,7 +760,7 @@ class FLP(Spec):
 
     def from_lattice(self, cfg, lat):
         from rl4co.utils.ops import get_distance_matrix
-        locs = t32(lat["locs"])
+        locs = t32(lat["locs"]) * float(cfg.get("scale", 1.0))
         B, n = locs.shape[:2]
         return TensorDict({"locs": locs, "orig_distances": get_distance_matrix(locs),
                            "distances": torch.full((B, n), math.sqrt(2.0)),
@@ -870,3 +875,59 @@ class MDCPDP(Spec):
 SPECS["mdcpdp"] = MDCPDP()
 ROUTING.append("mdcpdp")
 ALL_ENVS.append("mdcpdp")
+
+
+# --------------------------------------------------------------------------- EDA specs (synthetic PDN data, vf/eda.py)
+class DPP(Spec):
+    name = "dpp"
+    routing = False
+    has_depot_action = False
+    sources = ("gen",)
+    multi = False
+
+    def cfg(self, tier):
+        @st.composite
+        def c(draw):
+            size = draw(st.sampled_from([4, 5, 6, 8] if tier == "quick" else [4, 5, 6, 8, 10]))
+            cells = size * size
+            k = draw(st.integers(1, 6))
+            kmin = draw(st.integers(0, 3))
+            kmax = draw(st.integers(kmin + 1, max(kmin + 1, cells - k - 6)))
+            cfg = {"size": size, "k": k, "keepout_min": kmin, "keepout_max": kmax}
+            if self.multi:
+                pmin = draw(st.integers(1, 2))
+                cfg.update(probes_min=pmin, probes_max=draw(st.integers(pmin + 1, 4)),
+                           reward_type=draw(st.sampled_from(["minmax", "meansum"])))
+            return cfg
+        return c()
+
+    def gparams(self, cfg):
+        from .eda import data_dir
+        s = cfg["size"]
+        p = dict(data_dir=data_dir(), chip_file=f"{s}x{s}_pkg_chip.npy", max_decaps=cfg["k"],
+                 num_keepout_min=cfg["keepout_min"], num_keepout_max=cfg["keepout_max"])
+        if self.multi:
+            p.update(num_probes_min=cfg["probes_min"], num_probes_max=cfg["probes_max"])
+        return p
+
+    def build(self, cfg):
+        from rl4co.envs import DPPEnv
+        return DPPEnv(generator_params=self.gparams(cfg))
+
+    def bound(self, cfg, r):
+        return cfg["k"]
+
+
+class MDPP(DPP):
+    name = "mdpp"
+    multi = True
+
+    def build(self, cfg):
+        from rl4co.envs import MDPPEnv
+        return MDPPEnv(generator_params=self.gparams(cfg), reward_type=cfg["reward_type"])
+
+
+SPECS["dpp"] = DPP()
+SPECS["mdpp"] = MDPP()
+EDA = ["dpp", "mdpp"]
+ALL_ENVS += EDA
